@@ -19,6 +19,7 @@
  *   EPOLL <h>:<IN|OUT|INOUT|ERR> ...      explicit batch (h = c<N> | t<N> | l<jet|http|uds>)
  *   ALLOCFAIL <n>                  the n-th allocation from now fails (1 = next)
  *   JUNK <byte>                    fill pattern for fresh allocations
+ *   REPLY c<N> <k> <hex>           c<N> answers the k-th routed request it received: {"id":<that id>,<member text>}
  *   QUIESCE                        snapshot of daemon state
  *   TERM                           SIGTERM
  * Observation log on stdout (see vlib/simk.py for the parser).
@@ -78,6 +79,7 @@ struct simfd {
 	bool registered;
 	void *data_ptr;
 	/* connection */
+	bool is_http;
 	int family; /* AF_INET6 / AF_UNIX */
 	struct sockaddr_storage origin;
 	uint8_t *in;
@@ -203,6 +205,38 @@ static struct simfd *use(int fd, const char *what)
 		return NULL;
 	}
 	return s;
+}
+
+
+/* ids of routed requests seen on each connection (raw escaped JSON string content), for REPLY */
+#define MAX_ROUTED 256
+static char *routed_ids[2000][MAX_ROUTED];
+static int n_routed[2000];
+
+static void note_routed(int fd, const uint8_t *frame, size_t len)
+{
+	struct simfd *s = sim(fd);
+	if (!s || s->kind != K_CONN || s->handle < 0 || s->handle >= 2000) return;
+	/* skip the transport header: raw = 4 bytes; websocket = 2, 4 or 10 bytes (server frames are unmasked) */
+	size_t off;
+	if (s->is_http) {
+		if (len < 2) return;
+		unsigned l7 = frame[1] & 0x7f;
+		off = l7 == 126 ? 4 : (l7 == 127 ? 10 : 2);
+	} else off = 4;
+	static const char pre[] = "{\"id\":\"";
+	if (len < off + sizeof(pre) - 1 || memcmp(frame + off, pre, sizeof(pre) - 1) != 0) return;
+	size_t i = off + sizeof(pre) - 1, start = i;
+	while (i < len && frame[i] != '"') { if (frame[i] == '\\') i++; i++; }
+	if (i >= len) return;
+	static const char meth[] = "\",\"method\":";
+	if (i + sizeof(meth) - 1 > len || memcmp(frame + i, meth, sizeof(meth) - 1) != 0) return;
+	int c = s->handle;
+	if (n_routed[c] >= MAX_ROUTED) return;
+	char *id = __real_malloc(i - start + 1);
+	memcpy(id, frame + start, i - start);
+	id[i - start] = 0;
+	routed_ids[c][n_routed[c]++] = id;
 }
 
 /* ------------------------------------------------------------------ wrapped libc */
@@ -525,6 +559,7 @@ int __wrap_buffered_socket_writev(void *this_ptr, struct socket_io_vector *io_ve
 	size_t o = 0;
 	for (unsigned int i = 0; i < count; i++) { memcpy(flat + o, io_vec[i].iov_base, io_vec[i].iov_len); o += io_vec[i].iov_len; }
 	char *h = hexdup(flat, total);
+	note_routed(fd, flat, total);
 	free(flat);
 	/* the frame is logged before the call: a close inside the call must not hide it */
 	struct simfd *s = sim(fd);
@@ -750,10 +785,60 @@ static bool exec_line(char *line)
 		fds[fd].handle = n_conns;
 		conn_fd[n_conns++] = fd;
 		set_origin(&fds[fd], a2);
+		fds[fd].is_http = (ep == 1);
 		struct simfd *l = &fds[listener_fd[ep]];
 		if (l->n_pending < 64) l->pending[l->n_pending++] = fd;
 		if (!defer) batch_add(listener_fd[ep], EPOLLIN);
 		return !defer;
+	}
+	if (strcmp(cmd, "REPLY") == 0 && a1 && a2 && a3) {
+		/* REPLY c<N> <k> <hex of member text>: the owner's answer to the k-th routed request it received */
+		int fd0 = fd_of_handle(a1);
+		int kk = atoi(a2);
+		if (fd0 < 0) { out("BADCMD %s", a1); return false; }
+		int cn = fds[fd0].handle;
+		if (kk >= n_routed[cn]) { out("NOREPLY c%d %d", cn, kk); return false; }
+		uint8_t *member;
+		size_t mlen = unhex(a3, &member);
+		const char *id = routed_ids[cn][kk];
+		size_t tlen = 7 + strlen(id) + 2 + mlen + 1;
+		uint8_t *text = __real_malloc(tlen + 16);
+		size_t o = 0;
+		memcpy(text + o, "{\"id\":\"", 7); o += 7;
+		memcpy(text + o, id, strlen(id)); o += strlen(id);
+		memcpy(text + o, "\",", 2); o += 2;
+		memcpy(text + o, member, mlen); o += mlen;
+		text[o++] = '}';
+		free(member);
+		uint8_t *frame = __real_malloc(o + 16);
+		size_t fl = 0;
+		if (fds[fd0].is_http) {
+			static const uint8_t mask[4] = {0x11, 0x22, 0x33, 0x44};
+			frame[fl++] = 0x81;
+			if (o <= 125) frame[fl++] = 0x80 | (uint8_t)o;
+			else { frame[fl++] = 0x80 | 126; frame[fl++] = (uint8_t)(o >> 8); frame[fl++] = (uint8_t)o; }
+			memcpy(frame + fl, mask, 4); fl += 4;
+			for (size_t i = 0; i < o; i++) frame[fl++] = text[i] ^ mask[i & 3];
+		} else {
+			frame[fl++] = (uint8_t)(o >> 24); frame[fl++] = (uint8_t)(o >> 16); frame[fl++] = (uint8_t)(o >> 8); frame[fl++] = (uint8_t)o;
+			memcpy(frame + fl, text, o); fl += o;
+		}
+		char *th = hexdup(text, o);
+		out("REPLYTEXT c%d %d %s", cn, kk, th);
+		free(th);
+		free(text);
+		struct simfd *s = &fds[fd0];
+		size_t rest = s->in_len - s->in_pos;
+		uint8_t *nb = __real_malloc(rest + fl + 1);
+		if (rest) memcpy(nb, s->in + s->in_pos, rest);
+		memcpy(nb + rest, frame, fl);
+		free(frame);
+		free(s->in);
+		s->in = nb;
+		s->in_len = rest + fl;
+		s->in_pos = 0;
+		if (!defer && s->open) batch_add(fd0, EPOLLIN);
+		return !defer && s->open;
 	}
 	if (strcmp(cmd, "IN") == 0 && a1 && a2) {
 		int fd = fd_of_handle(a1);
